@@ -19,8 +19,7 @@ THEOREMS = [
     'Tbox.C17.C17_replay_advances_next_run_counterexample', 'Tbox.C17.C17_replay_next_run_repaired',
     'Tbox.C17.C17_timeout_leaves_child_running_counterexample', 'Tbox.C17.C17_timeout_repaired',
     'Tbox.C17.C17_stale_block_counterexample', 'Tbox.C17.C17_stale_block_repaired',
-    'Tbox.C17.C17_repeat_zero_counterexample', 'Tbox.C17.C17_repeat_zero_repaired',
-    'Tbox.C17.C17_sequence_header_literal_differs',
+    'Tbox.C17.C17_repeat_zero_means_forever', 'Tbox.C17.C17_sequence_header_literal_differs',
     # the inductive steps themselves
     'Tbox.C17.bstep_inv', 'Tbox.C17.step_wf', 'Tbox.C17.reachable_wf', 'Tbox.C17.seq_drive_aux',
 ]
@@ -181,8 +180,8 @@ def gen(rng, tier):
     # malformed stream: both sides must answer bad-op
     yield ['do start', 'tree', 'tree (', 'tree ( seq:all Fs', 'tree ( seq:bad Fs )', 'tree Fs Fs', 'tree ( ife:tt Fs Fs )', 'tree ( ift Fs )',
            'tree ( loop:fe )', 'tree Z51', 'tree Fs@51', 'tree ( rep:1001:nb Fs )', 'tree ( ife:ff Fs )', 'tree ( sw:n Fs )', 'tree )',
-           'tree ( cmp Fs Fs )', 'tree Fs:21', 'tree ( lif:t Fs )', 'cfg 1111', 'tree Fs', 'do', 'do frob', 'do emit:1:s', 'do emit:0:q', 'adv 101',
-           'adv x', 'pass 1', 'frob', 'do start', 'do emit:0:s', 'pass', 'cfg 11111']
+           'tree ( cmp Fs Fs )', 'tree Fs:21', 'tree ( lif:t Fs )', 'cfg 111', 'tree Fs', 'do', 'do frob', 'do emit:1:s', 'do emit:0:q', 'adv 101',
+           'adv x', 'pass 1', 'frob', 'do start', 'do emit:0:s', 'pass', 'cfg 1111']
     # directed: the three repaired defects and the stale-block pattern
     yield ['tree ( par:all Fs Fs )', 'do start pause', 'pass', 'do resume', 'pass', 'pass', 'pass']
     yield ['tree ( ife:tt Fs Fs Ff )', 'do start', 'do pause', 'pass', 'do resume reset', 'pass', 'pass', 'do start', 'pass', 'pass', 'pass']
@@ -253,8 +252,8 @@ LEVEL_TEXT = ('Lean 4 theorems over an executable model of the action framework.
               'finish/block/replay notification is queued at a reset or stopped action anywhere in the tree, curr_action_ is the only '
               'under-way child of a serial composite and a held-back result exists only without a current child, the final hook ran exactly '
               'once iff the action ended, reset() returns every action to its freshly built fields. (3) SequenceAction control flow = documented '
-              'loop for any number of children. (4) Counterexample theorems (kernel evaluation in the unrepaired configuration) for the six '
-              'defects repaired by patches/C17-01..06, each with its repaired counterpart. The model is tied to the real code on every run by '
+              'loop for any number of children. (4) Counterexample theorems (kernel evaluation in the unrepaired configuration) for the '
+              'defects repaired by patches/C17-01..04 (C17-05 is a hardening of C17-01 found by the invariant proof), each with its repaired counterpart. The model is tied to the real code on every run by '
               'differential execution of generated trees and control scripts on the real epoll loop under a virtual clock; the driver also '
               'evaluates WF and the documented result (reference evaluator, all composites) on every visited state')
 LEVEL_NOTE = ('OPEN: whole-tree "root result = documented meaning, leaves started in the documented order" through the queue (proved for the '
